@@ -18,8 +18,8 @@ CLAIMED = {
         note=TRUST + "Total.close/leaves and build on concrete accumulator trees (<=2 leaves, depth<=3: bounded, labelled).",
         technique=TECH),
     "C09": dict(category="proof", design_ref="DESIGN.md section 3 (C09), sections 5-6",
-        text="Deductive: proceed.__enter__/__exit__ contracts (restore on LIFO exit, interactor.exit exactly once, exceptions not swallowed); the non-LIFO clause demanded by the property fails on the real code and is recorded as a known finding with a native replay.",
-        note=TRUST + "ContextVar token semantics assumed; generator suspension itself is CPython semantics (the segment obligation on the transformer output is part of the transformer contracts).",
+        text="Deductive: proceed.__enter__/__exit__/suspend/resume contracts (while an activation is suspended and after it ended the surrounding code has the collection it installed itself, for any number of suspensions, whatever is installed meanwhile and in whatever order activations end; interactor.exit exactly once; exceptions not swallowed; one interactor per activation), and every yield / yield from of an instrumented function is rewritten to go through the frame (transformer schemas). The generator shell itself (proceed.yielding / delegating: generator functions, outside the engine) is decided by a bounded native scenario (all consumer scripts of next / send / throw / close up to length 5, nested activations of one function). The non-LIFO clause that was a recorded finding until fix 05821fe is now proved.",
+        note=TRUST + "ContextVar get / set semantics assumed; generator suspension, delegation (PEP 380) and finalisation are CPython semantics; proceed.yielding / delegating are checked by a bounded native scenario, not proved.",
         technique=TECH),
     "C12": dict(category="proof", design_ref="DESIGN.md section 3 (C12), sections 5-6",
         text="Deductive: obligations generated from the real bodies of Range/every/between/lt/gt/lte/gte/throttle, Selector.check_captures (two nested loop invariants, any number of constraints and values) and the BaseAccumulator filter wrapper/trigger/intercept path are discharged by z3 for all integers and all capture dictionaries.",
